@@ -2,10 +2,14 @@ use crate::driver::{run_check, run_replay, Tier};
 
 pub mod common;
 pub mod c01;
+pub mod c05;
+pub mod c06;
 
 pub fn dispatch_check(id: &str, tier: Tier, seed: u64) -> i32 {
     match id {
         "C01" => run_check(&c01::C01, tier, seed),
+        "C05" => run_check(&c05::C05, tier, seed),
+        "C06" => run_check(&c06::C06, tier, seed),
         _ => {
             eprintln!("harness error: unknown property {id}");
             2
@@ -16,6 +20,8 @@ pub fn dispatch_check(id: &str, tier: Tier, seed: u64) -> i32 {
 pub fn dispatch_replay(id: &str, file: &str) -> i32 {
     match id {
         "C01" => run_replay(&c01::C01, file),
+        "C05" => run_replay(&c05::C05, file),
+        "C06" => run_replay(&c06::C06, file),
         _ => {
             eprintln!("harness error: unknown property {id}");
             2
